@@ -65,11 +65,36 @@ impl HeaderValue {
 #[verifier::external_body] pub fn header_sec_websocket_version() -> (r: HeaderName) ensures r.name@ == "sec-websocket-version"@ { unimplemented!() }
 #[verifier::external_body] pub fn header_sec_websocket_key() -> (r: HeaderName) ensures r.name@ == "sec-websocket-key"@ { unimplemented!() }
 #[verifier::external_body] pub fn header_sec_websocket_accept() -> (r: HeaderName) ensures r.name@ == "sec-websocket-accept"@ { unimplemented!() }
-/// the header-list tokeniser of from_request: "some item of the comma/space separated list equals `token`, ignoring
-/// ASCII case" (W1)
-pub uninterp spec fn has_token(list: Seq<char>, token: Seq<char>) -> bool;
-#[verifier::external_body]
-pub fn list_has_token(list: &str, token: &str) -> (r: bool) ensures r == has_token(list@, token@) { unimplemented!() }
+/// std: `s.split(pred)` -- the pieces of `s` between the characters on which `pred` is true (as &str values; which
+/// pieces a text has is the uninterpreted `pieces_by`, keyed by the separator set the predicate accepts)
+pub uninterp spec fn pieces_by<'a>(s: &'a str, seps: Set<char>) -> Seq<&'a str>;
+pub struct SplitPieces<'a> { pub pieces: Ghost<Seq<&'a str>> }
+pub trait SplitBy { fn split_at_commas_and_spaces(&self) -> SplitPieces<'_>; }
+impl SplitBy for str {
+    /// `s.split(|c| c == ',' || c == ' ')` (W1: the token sequence must match exactly)
+    #[verifier::external_body]
+    fn split_at_commas_and_spaces(&self) -> (r: SplitPieces<'_>) ensures r.pieces@ == pieces_by(self, list_separators()) { unimplemented!() }
+}
+impl<'a> SplitPieces<'a> {
+    /// Iterator::any: true iff the predicate returned true on some piece (evaluated on the pieces in order)
+    #[verifier::external_body]
+    pub fn any<F: Fn(&'a str) -> bool>(self, f: F) -> (r: bool)
+        requires forall|p: &'a str| call_requires(f, (p,)),
+        ensures
+            r ==> exists|i: int| 0 <= i < self.pieces@.len() && call_ensures(f, (#[trigger] self.pieces@[i],), true),
+            !r ==> forall|i: int| 0 <= i < self.pieces@.len() ==> call_ensures(f, (#[trigger] self.pieces@[i],), false),
+    { unimplemented!() }
+}
+/// std: str equality is equality of the characters
+pub assume_specification[ <str as PartialEq>::eq ](a: &str, b: &str) -> (r: bool) ensures r == (a@ == b@);
+/// std: str::eq_ignore_ascii_case
+pub uninterp spec fn ascii_lower(s: Seq<char>) -> Seq<char>;
+pub trait EqIgnoreCase { fn eq_ignore_ascii_case_(&self, other: &str) -> bool; }
+impl EqIgnoreCase for str {
+    #[verifier::external_body]
+    fn eq_ignore_ascii_case_(&self, other: &str) -> (r: bool) ensures r == (ascii_lower(self@) == ascii_lower(other@)) { unimplemented!() }
+}
+pub open spec fn list_separators() -> Set<char> { Set::empty().insert(',').insert(' ') }
 /// `value.map(|v| v.as_bytes()) != Some(b"13")` (W1): the header is absent or its bytes are not exactly these
 pub uninterp spec fn ascii_bytes(s: Seq<char>) -> Seq<u8>;
 pub trait IsNotExactly { fn is_not_exactly(&self, text: &str) -> bool; }
@@ -105,3 +130,7 @@ impl vstd::std_specs::convert::FromSpecImpl<HttpBuildError> for HttpError {
 pub struct WebsocketConnection { pub _p: u8 }
 pub trait Future { type Output; }
 pub type WebsocketChannelResult = Result<(), String>;
+
+/// A11: a str is determined by its characters
+pub broadcast axiom fn ax_str_ext_b(a: &str, b: &str)
+    ensures #[trigger] a@ == #[trigger] b@ ==> a == b;
